@@ -269,6 +269,20 @@ let gr_dc g al =
 let gr_ds g al =
   let e = grounded g in if meets al e then (true, None) else (false, (Some e))
 
+(** val guarded_disj :
+    (nat -> cnf -> lit list -> answer) -> enc -> nat list coq_M -> bool ->
+    assignment option coq_M **)
+
+let guarded_disj oracle e lam close =
+  bind n_vars (fun nv ->
+    let sel = zlit (add (S O) nv) in
+    bind lam (fun la ->
+      bind (add_clause (app (map (arg_to_lit e) la) ((negate sel) :: [])))
+        (fun _ ->
+        bind (solve oracle (sel :: [])) (fun r ->
+          bind (if close then add_clause ((negate sel) :: []) else ret ())
+            (fun _ -> ret r)))))
+
 (** val co_dc :
     (nat -> cnf -> lit list -> answer) -> nat -> enc -> gview -> nat list ->
     bool coq_M **)
@@ -278,17 +292,10 @@ let co_dc oracle thr e g al =
     bind (merged_m g al) (fun sc ->
       let c = snd sc in
       bind (encode_m thr e false c.c_af) (fun _ ->
-        bind n_vars (fun nv ->
-          let sel = zlit (add (S O) nv) in
-          bind (locals_m c al) (fun la ->
-            bind
-              (add_clause (app (map (arg_to_lit e) la) ((negate sel) :: [])))
-              (fun _ ->
-              bind (solve oracle (sel :: [])) (fun r ->
-                bind (add_clause ((negate sel) :: [])) (fun _ ->
-                  ret (match r with
-                       | Some _ -> true
-                       | None -> false)))))))))
+        bind (guarded_disj oracle e (locals_m c al) true) (fun r ->
+          ret (match r with
+               | Some _ -> true
+               | None -> false)))))
 
 (** val co_dc_cert :
     (nat -> cnf -> lit list -> answer) -> nat -> enc -> gview -> nat list ->
@@ -299,47 +306,87 @@ let co_dc_cert oracle thr e g al =
     let c = snd sc in
     bind new_solver (fun _ ->
       bind (encode_m thr e false c.c_af) (fun _ ->
-        bind n_vars (fun nv ->
-          let sel = zlit (add (S O) nv) in
-          bind (locals_m c al) (fun la ->
-            bind
-              (add_clause (app (map (arg_to_lit e) la) ((negate sel) :: [])))
-              (fun _ ->
-              bind (solve oracle (sel :: [])) (fun r ->
-                match r with
-                | Some m ->
-                  let ext0 =
-                    lift c (assignment_to_extension (length c.c_af.args) e m)
-                  in
-                  bind (remaining_m g (fst sc)) (fun others ->
-                    ret (true, (Some
-                      (app ext0
-                        (flat_map (fun oc ->
-                          lift oc (grounded (view_of_af oc.c_af))) others)))))
-                | None -> ret (false, None))))))))
+        bind (guarded_disj oracle e (locals_m c al) false) (fun r ->
+          match r with
+          | Some m ->
+            let ext0 =
+              lift c (assignment_to_extension (length c.c_af.args) e m)
+            in
+            bind (remaining_m g (fst sc)) (fun others ->
+              ret (true, (Some
+                (app ext0
+                  (flat_map (fun oc ->
+                    lift oc (grounded (view_of_af oc.c_af))) others)))))
+          | None -> ret (false, None)))))
 
 (** val st_a2e : comp -> assignment -> nat list **)
 
 let st_a2e c m =
   lift c (assignment_to_extension (length c.c_af.args) StDefault m)
 
+(** val st_cc :
+    (nat -> cnf -> lit list -> answer) -> nat -> comp -> nat list -> bool ->
+    (assignment * bool) option coq_M **)
+
+let st_cc oracle thr c in_cc polarity =
+  bind new_solver (fun _ ->
+    bind (encode_m thr StDefault false c.c_af) (fun _ ->
+      match in_cc with
+      | [] ->
+        bind (solve oracle []) (fun m ->
+          ret (option_map (fun m0 -> (m0, false)) m))
+      | _ :: _ ->
+        if polarity
+        then bind (guarded_disj oracle StDefault (ret in_cc) true) (fun m1 ->
+               match m1 with
+               | Some m -> ret (Some (m, true))
+               | None ->
+                 bind (solve oracle []) (fun m2 ->
+                   ret (option_map (fun m -> (m, false)) m2)))
+        else bind
+               (solve oracle
+                 (map (fun a -> negate (arg_to_lit StDefault a)) in_cc))
+               (fun m -> ret (option_map (fun m0 -> (m0, false)) m))))
+
+(** val st_se_loop :
+    (nat -> cnf -> lit list -> answer) -> nat -> comp list -> nat list -> nat
+    list option coq_M **)
+
+let rec st_se_loop oracle thr l merged =
+  match l with
+  | [] -> ret (Some merged)
+  | c :: r ->
+    bind (st_cc oracle thr c [] false) (fun m ->
+      match m with
+      | Some p ->
+        let (m0, _) = p in st_se_loop oracle thr r (app merged (st_a2e c m0))
+      | None -> ret None)
+
 (** val st_se :
     (nat -> cnf -> lit list -> answer) -> nat -> gview -> nat list option
     coq_M **)
 
 let st_se oracle thr g =
-  bind (ccs_m g) (fun ccs ->
-    let rec go l merged =
-      match l with
-      | [] -> ret (Some merged)
-      | c :: r ->
-        bind new_solver (fun _ ->
-          bind (encode_m thr StDefault false c.c_af) (fun _ ->
-            bind (solve oracle []) (fun m ->
-              match m with
-              | Some m0 -> go r (app merged (st_a2e c m0))
-              | None -> ret None)))
-    in go ccs [])
+  bind (ccs_m g) (fun ccs -> st_se_loop oracle thr ccs [])
+
+(** val st_accept_loop :
+    (nat -> cnf -> lit list -> answer) -> nat -> nat list -> bool -> bool ->
+    comp list -> nat list -> bool -> (bool * nat list option) coq_M **)
+
+let rec st_accept_loop oracle thr al polarity status_on_unsat l merged found =
+  match l with
+  | [] ->
+    if found
+    then ret ((negb status_on_unsat), (Some merged))
+    else ret (status_on_unsat, None)
+  | c :: r ->
+    bind (st_cc oracle thr c (filter_map (cc_local c) al) polarity) (fun m ->
+      match m with
+      | Some p ->
+        let (m0, acc) = p in
+        st_accept_loop oracle thr al polarity status_on_unsat r
+          (app merged (st_a2e c m0)) ((||) acc found)
+      | None -> ret (status_on_unsat, None))
 
 (** val st_accept :
     (nat -> cnf -> lit list -> answer) -> nat -> gview -> nat list -> bool ->
@@ -347,48 +394,8 @@ let st_se oracle thr g =
 
 let st_accept oracle thr g al polarity status_on_unsat =
   bind (ccs_m g) (fun ccs ->
-    let rec go l merged found =
-      match l with
-      | [] ->
-        if found
-        then ret ((negb status_on_unsat), (Some merged))
-        else ret (status_on_unsat, None)
-      | c :: r ->
-        bind new_solver (fun _ ->
-          bind (encode_m thr StDefault false c.c_af) (fun _ ->
-            let in_cc = filter_map (cc_local c) al in
-            (match in_cc with
-             | [] ->
-               bind (solve oracle []) (fun m ->
-                 match m with
-                 | Some m0 -> go r (app merged (st_a2e c m0)) found
-                 | None -> ret (status_on_unsat, None))
-             | _ :: _ ->
-               if polarity
-               then bind n_vars (fun nv ->
-                      let sel = zlit (add (S O) nv) in
-                      bind
-                        (add_clause
-                          (app (map (arg_to_lit StDefault) in_cc)
-                            ((negate sel) :: []))) (fun _ ->
-                        bind (solve oracle (sel :: [])) (fun m1 ->
-                          bind (add_clause ((negate sel) :: [])) (fun _ ->
-                            match m1 with
-                            | Some m -> go r (app merged (st_a2e c m)) true
-                            | None ->
-                              bind (solve oracle []) (fun m2 ->
-                                match m2 with
-                                | Some m ->
-                                  go r (app merged (st_a2e c m)) found
-                                | None -> ret (status_on_unsat, None))))))
-               else bind
-                      (solve oracle
-                        (map (fun a -> negate (arg_to_lit StDefault a)) in_cc))
-                      (fun m ->
-                      match m with
-                      | Some m0 -> go r (app merged (st_a2e c m0)) found
-                      | None -> ret (status_on_unsat, None)))))
-    in go ccs [] (negb polarity))
+    st_accept_loop oracle thr al polarity status_on_unsat ccs []
+      (negb polarity))
 
 (** val st_dc :
     (nat -> cnf -> lit list -> answer) -> nat -> gview -> nat list ->
